@@ -575,7 +575,8 @@ impl Link {
 
         let mult = config.latency_distribution.sample(rand);
         #[cfg(turmoil_verif)]
-        let mult = match crate::verif::choose("latency-variate", crate::verif::LATENCY_MULTS.len()) {
+        let mult = match crate::verif::choose("latency-variate", crate::verif::LATENCY_MULTS.len())
+        {
             Some(c) => crate::verif::LATENCY_MULTS[c],
             None => mult,
         };
